@@ -185,6 +185,28 @@ def extra(report, env):
                 ok = (r['error'] is None and close(r['result'], want)) if want is not None else (r['error'] is not None)
                 if not ok and len(fails) < 5:
                     fails.append({'formula': '%s with xs=%r ranges=%r' % (text, xs, ranges), 'detail': 'expected %s got %r' % ('an error' if want is None else float(want), r)})
+    # long columns: hundreds of items of ordinary magnitude (prices around 65, rates around 0.004, counts up to 1000) - the definitions do
+    # not care how many items there are, and intermediate products / sums of squares must not overflow or underflow
+    for gen in (lambda: round(rng.uniform(40, 90), 2), lambda: round(rng.uniform(0.001, 0.008), 4), lambda: rng.randint(1, 1000), lambda: round(rng.uniform(-5, 5), 3)):
+        for n_ in (160, 220, 300):
+            xs = [gen() for _ in range(n_)]
+            fx = [Fraction(x) for x in xs]
+            p.set_variable('col', xs)
+            for name, f in defs.items():
+                if name == 'PRODUCT':
+                    continue
+                cases += 1
+                r = p.parse('%s(col)' % name)
+                want = f(fx)
+                if not (r['error'] is None and abs(float(r['result']) - float(want)) <= 1e-9 * max(1.0, abs(float(want)))) and len(fails) < 5:
+                    fails.append({'formula': '%s over %d items like %r' % (name, n_, xs[:3]), 'detail': 'expected %r got %r' % (float(want), r)})
+            if min(xs) > 0:
+                for name, f in (('GEOMEAN', statistics.geometric_mean), ('HARMEAN', statistics.harmonic_mean)):
+                    cases += 1
+                    r = p.parse('%s(col)' % name)
+                    want = f(xs)
+                    if not (r['error'] is None and abs(float(r['result']) - want) <= 1e-9 * max(1.0, abs(want))) and len(fails) < 5:
+                        fails.append({'formula': '%s over %d items like %r' % (name, n_, xs[:3]), 'detail': 'expected %r got %r' % (want, r)})
     # an error among the items makes the result that error: every position, zeros and blanks among the other items, regrouped
     from hotxlfp.formulas import error
     for name in ('SUM', 'PRODUCT', 'AVERAGE', 'MIN', 'MAX', 'MEDIAN'):
